@@ -11,7 +11,7 @@
 """
 import glob, json, os, re, shutil, subprocess, sys, time
 
-ENV = dict(os.environ, GOFLAGS="-mod=mod", GOPROXY="off", GOSUMDB="off", GOTOOLCHAIN="local")
+ENV = dict(os.environ, GOFLAGS="-mod=mod", GOPROXY="off", GOSUMDB="off", GOTOOLCHAIN="local", VERIF_EVIDENCE_DIR="/tmp/seedeval-evidence")
 ROOT = os.environ.get("SEEDEVAL_ROOT", "/verif")
 
 
